@@ -118,6 +118,13 @@ def gen_flarm(repo):
     actypes = re.findall(r"(\d+)\s*=>\s*AircraftType::(\w+)\s*,", src)
     if [int(a) for a, _ in actypes] != list(range(16)):
         raise ExtractError("flarm.rs: decode_actype no longer maps 0..15 in order")
+    m = re.search(r"pub\s+enum\s+AircraftType\s*\{(.*?)\}", src, flags=re.S)
+    if not m:
+        raise ExtractError("flarm.rs: enum AircraftType not found")
+    enum_names = [x.split("=")[0].strip() for x in m.group(1).split(",") if x.strip()]
+    first = re.search(r"(\w+)\s*=\s*(\d+)", m.group(1))
+    if not first or first.group(1) != enum_names[0] or int(first.group(2)) != 0 or m.group(1).count("=") != 1:
+        raise ExtractError("flarm.rs: enum AircraftType no longer numbers its variants from `= 0`")
     # speed / track (floating point part: constants only; shape checked)
     sd1, sd2 = grab(src, "speed components", "let ns = n as f64 / #; let ew = e as f64 / #;")
     grab(src, "speed norm", "(ns * ns + ew * ew).sqrt()", 0)
@@ -217,6 +224,8 @@ def gen_flarm(repo):
     N("ACTYPE_SHR", actshr)
     N("ACTYPE_MASK", actmask)
     out.append(f"def ACTYPE_NAMES : List String := [{', '.join(chr(34) + n + chr(34) for _, n in actypes)}]")
+    out.append("/-- variants of `enum AircraftType` in declaration order (discriminants 0, 1, …) -/")
+    out.append(f"def ACTYPE_ENUM : List String := [{', '.join(chr(34) + n + chr(34) for n in enum_names)}]")
     out.append("\n-- speed / track (floating point in the code; exact rationals here)")
     out.append(f"def SPEED_COMP_DIV_NS : Nat := {intf(sd1)}")
     out.append(f"def SPEED_COMP_DIV_EW : Nat := {intf(sd2)}")
